@@ -2,6 +2,7 @@
 From Coq Require Import List NArith Bool.
 Import ListNotations.
 From BM Require Import Bytes Utf8 GenUnicode Strings Regex KwHandler DangerBytes.
+From Coq Require String.
 Open Scope N_scope.
 
 Section Kw.
@@ -28,4 +29,45 @@ Section Kw.
     assert (HT : D mk (trim_space part) = D mk part) by (apply D_trim_space; assumption).
     rewrite <- HT, <- HL. exact Hkw.
   Qed.
+
+  Hypothesis mk_blank : mk 32 = false.
+  Theorem in_space_marked kw v : (forall k, In k kw -> D mk k = []) -> in_list (split v [32]) kw = true -> D mk v = [].
+  Proof.
+    intros Hkw H. assert (HS : concat (map (D mk) (split v [32])) = D mk v) by (apply D_split; assumption).
+    rewrite <- HS. apply concat_nil. intros x Hx. apply in_map_iff in Hx as (part & <- & Hpart).
+    unfold in_list in H. rewrite forallb_forall in H. specialize (H _ Hpart). apply mem_In in H. exact (Hkw _ H).
+  Qed.
 End Kw.
+
+(* ---- an environment of handlers that accept only values with some property ---- *)
+Section Env.
+  Variable acceptors : list (String.string * re).
+  Variable P : bytes -> Prop.
+  Definition cond_ok (c : hcond) : Prop :=
+    match c with
+    | CRx nm => forall v, acceptor acceptors nm v = true -> P v
+    | CCall _ => True
+    | CIn kw => forall v, kw_handler kw v = true -> P v
+    | CInSpace kw => forall v, in_list (split v [32]) kw = true -> P v
+    end.
+  Definition env_ok (env : henv) : Prop := forall e, In e env -> forall v, snd e v = true -> P v.
+
+  Lemma eval_def_ok env d : env_ok env -> Forall cond_ok d -> forall v, eval_def acceptors env d v = true -> P v.
+  Proof.
+    intros He Hd v H. unfold eval_def in H. apply existsb_exists in H as (c & Hc & Hv).
+    rewrite Forall_forall in Hd. specialize (Hd c Hc). destruct c as [nm|fn|kw|kw]; cbn [eval_cond cond_ok] in *.
+    - exact (Hd v Hv).
+    - unfold call_env in Hv. destruct (find _ env) as [e|] eqn:Ef; [|discriminate]. apply find_some in Ef as [Ein _]. exact (He e Ein v Hv).
+    - exact (Hd v Hv).
+    - exact (Hd v Hv).
+  Qed.
+
+  Theorem build_handlers_ok : forall defs env, env_ok env -> Forall (fun nd => Forall cond_ok (snd nd)) defs ->
+    env_ok (build_handlers acceptors defs env).
+  Proof.
+    induction defs as [|[n d] defs IH]; intros env He Hd; cbn [build_handlers]; [exact He|].
+    inversion Hd as [|? ? Hd1 Hd2]; subst. cbn [snd] in Hd1. apply IH; [|exact Hd2].
+    intros e Hin v Hv. apply in_app_or in Hin as [Hin|[<-|[]]]; [exact (He e Hin v Hv)|].
+    cbn [snd] in Hv. exact (eval_def_ok env d He Hd1 v Hv).
+  Qed.
+End Env.
